@@ -176,7 +176,53 @@ def run_unit(u, keep=False, mutant=None, timeout=None, verbose=False, trace=Fals
         return r2
     return r
 
+def run_native_unit(u, timeout=None):
+    """kind='native': a BOUNDED stand-in (never counted as proof): the unit's sources are compiled by gcc from /repo's working tree,
+    linked with a driver from /verif/replay and /repo/.libs/libmpir.a, and the driver enumerates a stated finite space completely"""
+    t0 = time.time()
+    res = {'unit': u['name'], 'props': u['props'], 'status': 'undecided', 'obligations': [], 'reason': '', 'functions': [],
+           'replaced': [], 'assumptions': list(u.get('assumptions', [])), 'source': u['source'], 'solver_s': 0.0,
+           'bounded': u.get('bounded', 'bounded native enumeration'), 'tmp': None, 'checker_cmd': 'gcc <sources from /repo> %s libmpir.a ; ./a.out' % u['driver']}
+    tmp = tempfile.mkdtemp(prefix='mpir-verif.%s.' % u['name'], dir=os.environ.get('TMPDIR', '/tmp'))
+    try:
+        lib = os.path.join(REPO, '.libs', 'libmpir.a')
+        if not os.path.exists(lib):
+            res['reason'] = 'libmpir.a not built in /repo (run setup)'
+            return res
+        objs = []
+        for i, sfile in enumerate([u['source']] + list(u.get('more_sources', []))):
+            o = os.path.join(tmp, 's%d.o' % i)
+            rc, out, err, dt = run(['gcc', '-c', '-O0', '-w', '-I' + REPO, '-I' + os.path.dirname(os.path.join(REPO, sfile)), '-DHAVE_CONFIG_H',
+                                    '-D__GMP_WITHIN_GMP', os.path.join(REPO, sfile), '-o', o], 120)
+            if rc != 0:
+                res['reason'] = 'native compile failed: ' + err[-500:]
+                return res
+            objs.append(o)
+        exe = os.path.join(tmp, 'a.out')
+        rc, out, err, dt = run(['gcc', '-O1', '-w', '-I' + REPO, '-o', exe, os.path.join(VERIF, u['driver'])] + objs + [lib, '-lm'], 120)
+        if rc != 0:
+            res['reason'] = 'native link failed: ' + err[-500:]
+            return res
+        rc, out, err, dt = run([exe] + list(u.get('args', [])), timeout or u.get('timeout', 300))
+        res['solver_s'] = round(dt, 2)
+        if rc == 'timeout':
+            res['reason'] = 'native driver timeout'
+            return res
+        ok = rc == 0 and 'PASS' in out
+        res['native_output'] = out[-4000:]
+        res['obligations'] = [{'id': u['name'] + '.enumeration', 'desc': u.get('desc', '') + ' :: ' + out.strip().splitlines()[-1][:300] if out.strip() else u.get('desc', ''),
+                               'status': 'SUCCESS' if ok else ('FAILURE' if 'FAIL' in out else 'ERROR'), 'file': u['driver'], 'line': '', 'function': ''}]
+        res['status'] = 'ok' if ok else ('fail' if 'FAIL' in out else 'undecided')
+        if res['status'] == 'undecided':
+            res['reason'] = 'native driver gave no verdict: ' + (out + err)[-300:]
+        return res
+    finally:
+        res['wall_s'] = round(time.time() - t0, 2)
+        shutil.rmtree(tmp, ignore_errors=True)
+
 def _run_unit(u, keep=False, mutant=None, timeout=None, verbose=False, trace=False):
+    if u.get('kind') == 'native':
+        return run_native_unit(u, timeout)
     """-> dict(status=ok|fail|undecided, obligations=[...], ...)"""
     t0 = time.time()
     tmp = tempfile.mkdtemp(prefix='mpir-verif.%s.' % u['name'], dir=os.environ.get('TMPDIR', '/tmp'))
